@@ -30,28 +30,39 @@ Theorem parse_error_classification : forall p st epoch creq,
 Proof. exact parse_error_classification_all. Qed.
 Print Assumptions parse_error_classification.
 
-(* Frame layer of receive_total, PATCHED model: for every payload byte string, every epoch, every
-   abstract connection state and every answer of the TLS engine that is not itself an escaping
-   exception, receive_datagram below decryption returns normally, and a QuicConnectionError carries
-   a QuicErrorCode or CRYPTO_ERROR + alert.  _partial: the TLS engine in handshake states, the
-   header parser and the transmit path are outside this theorem (docs/C05.md). *)
-Theorem receive_total_partial : forall st epoch creq rbits payload,
-  oracle_total (c_tls_oracle st) ->
+(* receive_total_tls: frame layer + TLS message layer (TlsRecv.crypto_deliver substituted below the CRYPTO handler; no
+   hypothesis about the TLS engine's answers is left).  For EVERY abstract connection state whose tls.Context satisfies
+   the hypotheses of tls_handle_message_total (wf_cfg, wf0), every epoch, flags, payload byte string and EVERY valuation
+   of the oracle records (cryptography / X.509 / callbacks): receive_datagram below decryption never lets an exception
+   escape; a QuicConnectionError raised out of _payload_received carries a QuicErrorCode, CRYPTO_ERROR + one of nine
+   alerts, or the code the transport-parameter callback raised; the tls.Context left behind satisfies the hypotheses
+   again (so the statement composes over packets), and handlers never set a close initiated by this endpoint. *)
+Theorem receive_total_tls : forall st epoch creq rbits payload,
+  tls_ok (c_tls st) ->
   (forall n k, receive_packet true st epoch creq rbits payload <> OExn n k) /\
   match payload_received true st epoch creq payload with
-  | PDone _ _ _ _ => True
-  | PQErr _ _ code _ => code_ok (c_tls_oracle st) code
+  | PDone st' _ _ _ => tls_ok (c_tls st') /\ close_step (c_close st) (c_close st')
+  | PQErr prior _ code _ => code_ok (c_tls st) code /\ close_step (c_close st) prior
   | PExn _ _ => False
   end.
 Proof. exact receive_total_frames. Qed.
-Print Assumptions receive_total_partial.
+Print Assumptions receive_total_tls.
+
+(* "Own close code is documented", carried through _close_event to the outcome: if no close was decided before the
+   packet (receive_datagram's gate) and the transport-parameter callback only raises QuicErrorCode values, a close
+   initiated by this endpoint carries a QuicErrorCode or CRYPTO_ERROR + a TLS alert. *)
+Theorem receive_close_code_documented : forall st epoch creq rbits payload n code ft,
+  tls_ok (c_tls st) -> orcs_in_range (c_tls st) -> c_close st = None ->
+  receive_packet true st epoch creq rbits payload = OClosed n code ft -> code_documented code.
+Proof. exact receive_close_code. Qed.
+Print Assumptions receive_close_code_documented.
 
 (* The same statement is FALSE for the pinned model: NEW_CONNECTION_ID(seq 20, retire_prior_to 11) in a
    reachable state raises IndexError (finding N1), and a non-INITIAL first packet makes a server raise
    AssertionError (finding F2); the patched model closes with PROTOCOL_VIOLATION / drops the packet. *)
 Theorem receive_total_refuted :
   (exists st epoch payload n,
-     oracle_total (c_tls_oracle st) /\ c_close st = None /\
+     tls_ok (c_tls st) /\ c_close st = None /\
      receive_packet false st epoch false false payload = OExn n EXN_IndexError /\
      receive_packet true st epoch false false payload = OClosed n EC_PROTOCOL_VIOLATION FT_NEW_CONNECTION_ID) /\
   (exists ptype len,
